@@ -5,31 +5,27 @@ SPEC = dict(
         "failing elements, nested batches; extractMeasurements; name validation; CheckWritePermissions; "
         "ArrowBuffer.Write dispatch), line protocol (/write, /api/v2/write, /api/v1/write/line-protocol, LP import: "
         "database from header/query per endpoint, RBAC before name validation), CSV/Parquet import (importPreamble), "
-        "TLE write/import, buffer key -> splitBufferKey -> generateStoragePath, WAL emission (envelope vs plain rows), "
-        "ParseEnvelope and the replication apply path. Proved for ALL requests, payloads and RBAC policies: "
-        "C32_full_lineprotocol(+_paths), C32_full_tle (full strength: every key/path is <request db>/<m>/... with m "
-        "permission-checked and allowed, db and m slash-free); C32_full_msgpack_partial(+_paths) under the carve-out "
-        "`measurement != \"\"` with C32_full_msgpack_witness (a record with measurement \"\" is buffered under `db/` "
-        "unvalidated and unchecked); C32_msgpack_database (no carve-out: a msgpack write never leaves the request's "
-        "database); C32_full_import_partial under the carve-out `importPreamble succeeded` with "
-        "C32_full_import_witness (a rejected/denied CSV or Parquet import still stores its rows, under \"\"/\"\"); "
-        "C32_payload_inert(_msgpack/_lineprotocol/_single): status, database, checked set and keys are a function of "
-        "the payload skeleton only (all cell names/values erased); C32_denied_stores_nothing_{msgpack,lineprotocol,tle} "
-        "(+ import witness/partial); C32_envelope_roundtrip, C32_replicated (every replicated key carries the database "
-        "ParseEnvelope extracted), C32_replicated_enveloped, C32_replicated_full_partial (enveloped raw columnar "
-        "entries land where the writer stored them) with witnesses C32_replicated_full_witness_database / _measurement "
-        "(un-enveloped row entries land under `default` and under a measurement read from a payload cell); "
+        "TLE write/import, buffer key -> splitBufferKey -> generateStoragePath, WAL emission (envelope vs plain rows "
+        "with the routing entries written last), ParseEnvelope and the replication apply path. Proved at full "
+        "strength for ALL requests, payloads and RBAC policies: C32_full_msgpack(+_paths), C32_full_lineprotocol"
+        "(+_paths), C32_full_import, C32_full_tle (every key/path is <request db>/<m>/... with m name-validated, "
+        "permission-checked and allowed, db and m slash-free); C32_msgpack_database; C32_payload_inert"
+        "(_msgpack/_lineprotocol/_single): status, database, checked set and keys are a function of the payload "
+        "skeleton only (all cell names/values erased); C32_denied_stores_nothing_{msgpack,lineprotocol,tle,import}; "
+        "C32_envelope_roundtrip, C32_replicated (a replicated key is under the envelope's database or under the "
+        "_database/_measurement of one of the entry's rows; cells named database/measurement/m are inert), "
+        "C32_replicated_enveloped, C32_replicated_full_{msgpack,lineprotocol,single} (every key of the replicated copy "
+        "is a key the writer stored); regression theorems C32_empty_measurement_rejected, C32_rejected_import_stops, "
+        "C32_replicated_rows_follow_writer pin the behaviour repaired by 4889dd9, 24f8156, c684d79, 55fc210; "
         "C32_facts_tied consumes the regenerated facts by `decide`. The model is diffed against the REAL fiber handlers "
         "(app.Test), a recording RBAC checker, a real ArrowBuffer over a recording backend, a real wal.Writer whose "
         "replication hook feeds the REAL Receiver.applyEntry -> buildReplicationIngestHandler on a second ArrowBuffer."
     ),
     level_note=(
-        "Three clauses of the property are violated by the current code and are claimed only under explicit carve-outs "
-        "(see known findings / witnesses): msgpack records with an empty measurement; CSV/Parquet imports whose "
-        "preamble rejected the request; replicated copies of writes that reach the WAL without an envelope (line "
-        "protocol, row-format/batch/array msgpack, TLE, CSV/Parquet). The msgpack/LP decoders, CSV/Parquet/TLE "
-        "parsers and Arrow/Parquet encoding are outside the model: the harness classifies each generated element "
-        "(decodes / errors / junk) and the correspondence checks that classification."
+        "The msgpack/LP decoders, CSV/Parquet/TLE parsers and Arrow/Parquet encoding are outside the model: the "
+        "harness classifies each generated element (decodes / errors / junk) and the correspondence checks that "
+        "classification. The permission clauses are stated for RBAC enabled with a caller identity; the WAL crash "
+        "recovery path (cmd/arc) is C05's subject."
     ),
     technique="Lean 4 proof over an executable routing model with regenerated source facts; differential correspondence through the real fiber handlers, ArrowBuffer, WAL hook and replication apply path",
     factgen=True,
